@@ -294,8 +294,8 @@ def _norm(v):
         return v
     if isinstance(v, dict):
         return {k: _norm(x) for k, x in v.items()}
-    if hasattr(v, "_values") and hasattr(v, "name") and type(v).__name__ == "ColorMap":
-        return ("ColorMap", v.name, _norm(v._values))
+    if type(v).__name__ == "ColorMap":
+        return ("ColorMap", v.name, _norm(getattr(v, "values", None)))
     if type(v).__name__ == "ReferenceValueMap":
         return _norm(v.map)
     if hasattr(v, "name") and hasattr(v, "value") and type(type(v)).__name__ == "EnumMeta" or type(type(v)).__name__ == "EnumType":
